@@ -192,17 +192,34 @@ def schedFinish (g : Sched.State) (cid : String) : Nat → Sched.State
 
 /-! ### steps -/
 
+/-- order of the rendered events (what the harness sorts by) -/
+def insertWEv (x : WEv) : List WEv → List WEv
+  | [] => [x]
+  | y :: ys => if wevStr x < wevStr y then x :: y :: ys else y :: insertWEv x ys
+
 /-- `watcher.Start` + `watcher.List` / `watcher.Watch` (`KB.Etcd.watchCreate`): the `created` answer is
 unconditional; a refused request (range-stream shape without both borders, /repo 5b8c053; a watch whose key
 does not start with "/") shows as a cancel with `compact_revision = 1`, so does a registration the backend
-refuses. The data of a streamed range (`rangeStream`) is not part of this suite's model: only its refusal is. -/
+refuses. A streamed range (`rangeStream`, both borders present) is `KB.doStream` on the borders as they are. -/
 def stepWatch (s : State) (name key stop : String) (rev : Int) : State × String :=
   let wid := s.ws.length + 1
   let refused : State × String :=
     ({ s with ws := s.ws ++ [{ name := name, wid := wid, canceled := true, compact := 1 }] }, s!"watch {name} created")
   match watchCreate (unhx key) (unhx stop) rev with
   | .refused => refused
-  | .rangeStream _ _ _ => refused   -- (placeholder: the streamed data is not modelled here)
+  | .rangeStream k e r =>
+    -- the streamed range (watcher.List over backend.ListByStream): the borders are handed to the scanner AS THEY ARE
+    -- (internal keys are expected; a client may send any bytes). The kvs arrive as PUT events — the forked receivers
+    -- deliver concurrently: both sides print them sorted — then the terminator: an event for the key "eof" at the
+    -- magic revision whose value is the error text (printed as "err" when there is one). No cancel answer follows.
+    match doStream s.st.cfg s.st.b k e r with
+    | .ok res =>
+      let evs : List WEv := (res.batches.flatMap (·.2)).map (fun kv => { isDelete := false, kv := kv, prev := none })
+      let sorted := evs.foldr insertWEv []
+      let eof : WEv := { isDelete := false, prev := none,
+                         kv := ([101, 111, 102], if res.endErr.isSome then [101, 114, 114] else [], 1888) }
+      ({ s with ws := s.ws ++ [{ name := name, wid := wid, pending := sorted ++ [eof] }] }, s!"watch {name} created")
+    | _ => (s, s!"watch {name} PANIC")
   | .watch pfx r =>
     let (ok, b) := doWatch s.st.cfg s.st.b wid pfx r
     if ok then
